@@ -6,5 +6,13 @@ RULE = ("same exploration core as C01 (all schedules, -j1/2/3, pools); at every 
         "status 0 before; directories of outputs/depfile exist on the simulated disk; response file holds the declared content")
 
 
+def fams(tier):
+    # the same clauses while ninja is a client of a jobserver pool (seam S6a): tokens decide what may start when
+    import templates_js
+    out = nxprops.families(tier)
+    out.append(("jobserver pool x other client (engine A)", templates_js.templates(tier), None, None))
+    return out
+
+
 def main(argv):
-    nxprops.run_check("C04", argv, ["C04"], RULE)
+    nxprops.run_check("C04", argv, ["C04"], RULE, fam_fn=fams)
